@@ -1,16 +1,27 @@
 #!/bin/bash
-# tools/wave6.sh <ID> [extra check ids...]  -- confirms the two changes a wave-6 sub-agent left in /tmp/w6-out-<ID>/m{1,2}
-# (tools/seedverify.sh) and runs the quick tier of <ID> (and of the extra checks) against each kept change.
+# tools/wave6.sh <ID> [extra check ids...]  -- confirms the changes a sub-agent left in $WAVE_OUT-<ID>/m{1,2}
+# (default WAVE_OUT=/tmp/w6-out; tools/seedverify.sh decides) and runs the quick tier of <ID> (and of the extra
+# checks) against each kept change. Kept changes get the next free names seeded/<ID>-m<k>.
 ID="$1"; shift; EXTRA="$*"
-cd /verif
-case $ID in C01|C05|C06|C11|C12|C13|C15|C16) base=8;; *) base=6;; esac
+cd "$(dirname "$0")/.."
+OUT="${WAVE_OUT:-/tmp/w6-out}"
 for k in 1 2; do
-  src=/tmp/w6-out-$ID/m$k
+  src=$OUT-$ID/m$k
   [ -f $src/patch.diff ] || { echo "$ID m$k: no patch"; continue; }
-  name=$ID-m$((base+k))
-  mod=gbn; grep -q '^diff --git a/mailbox' $src/patch.diff && mod=mailbox
-  if [ ! -f seeded/$name/patch.diff ]; then
+  # already kept? (same patch text)
+  name=""
+  for d in seeded/$ID-m*/; do
+    [ -f $d/meta.json ] && grep -q "\"wave_source\": \"$src\"" $d/meta.json && name=$(basename $d)
+  done
+  if [ -z "$name" ]; then
+    n=1; while [ -d seeded/$ID-m$n ]; do n=$((n+1)); done
+    name=$ID-m$n
+    mod=gbn; grep -q '^diff --git a/mailbox' $src/patch.diff && mod=mailbox
     tools/seedverify.sh $src $name $mod 2>&1 | tail -2
+    [ -f seeded/$name/meta.json ] && python3 - seeded/$name/meta.json "$src" <<'PY'
+import json,sys
+m=json.load(open(sys.argv[1])); m["wave_source"]=sys.argv[2]; json.dump(m,open(sys.argv[1],"w"),indent=1)
+PY
   fi
   [ -f seeded/$name/patch.diff ] || continue
   MUTANT_SCRATCH=1 tools/mutant.sh seeded/$name/patch.diff $ID $EXTRA 2>&1 | cut -c1-400
